@@ -38,6 +38,9 @@ def _case(draw, tier):
     c["shift"] = draw(st.integers(-80, 80)) / 8.0
     c["scale_exp"] = draw(st.sampled_from([1, -1, 2, 3, -2, 4, -3]))
     c["compiled"] = draw(st.booleans())
+    # an averaging sub-interval (borders on and between spike times), carried along
+    # with the time axis
+    c["interval"] = draw(gen.interval_arg_for(g))
     return c
 
 
@@ -89,7 +92,18 @@ def nontrivial(case):
     return _asym(case)
 
 
-def _bundle(ctx, trains, t0, t1, mrts, ri, max_tau, tag):
+def _tx_interval(iv, fx, reverse=False):
+    """iv: (a, b) or a list of such, as given to the library"""
+    if iv is None:
+        return None
+    if isinstance(iv, tuple):
+        a, b = fx(iv[0]), fx(iv[1])
+        return (b, a) if reverse else (a, b)
+    out = [_tx_interval(tuple(i), fx, reverse) for i in iv]
+    return list(reversed(out)) if reverse else out
+
+
+def _bundle(ctx, trains, t0, t1, mrts, ri, max_tau, tag, iv=None):
     """everything observable, as plain lists"""
     import pyspike
     from pyspike.isi_lengths import default_thresh
@@ -137,6 +151,18 @@ def _bundle(ctx, trains, t0, t1, mrts, ri, max_tau, tag):
     val("spike_matrix", pyspike.spike_distance_matrix, sts, **kS)
     val("sync_matrix", pyspike.spike_sync_matrix, sts, **kC)
     val("default_thresh", default_thresh, sts)
+    if iv is not None:
+        val("iv:isi_distance", pyspike.isi_distance, sts, interval=iv, **kI)
+        val("iv:spike_distance", pyspike.spike_distance, sts, interval=iv, **kS)
+        val("iv:spike_sync", pyspike.spike_sync, sts, interval=iv, **kC)
+        val("iv:isi_distance_bi", pyspike.isi_distance, a, b, interval=iv, **kI)
+        val("iv:spike_distance_bi", pyspike.spike_distance, a, b, interval=iv, **kS)
+        val("iv:spike_sync_bi", pyspike.spike_sync, a, b, interval=iv, **kC)
+        val("iv:sync_matrix", pyspike.spike_sync_matrix, sts, interval=iv, **kC)
+        fs = ctx.call(tag + ":sync_profile_for_iv", pyspike.spike_sync_profile, sts, **kC)
+        val("iv:sync_profile_integral", fs.integral, iv)
+        fo = ctx.call(tag + ":order_profile_for_iv", pyspike.spike_train_order_profile, sts, **kC)
+        val("iv:order_profile_integral", fo.integral, iv)
     R["n_spikes"] = sum(len(tr) for tr in trains)
     return R
 
@@ -165,7 +191,22 @@ def run_case(case, ctx):
     t0, t1 = case["t0"], case["t1"]
     trs = case["trains"]
     mrts, ri, mt = case["mrts"], bool(case["ri"]), case["max_tau"]
-    base = _bundle(ctx, trs, t0, t1, mrts, ri, mt, "base")
+    iv = gen.to_interval(case.get("interval"))
+    base = _bundle(ctx, trs, t0, t1, mrts, ri, mt, "base", iv)
+    IVS = [k for k in base if k.startswith("iv:")]
+    ivtol = 1e-12
+    if iv is not None:
+        ln = float(sum(b_ - a_ for a_, b_ in M.intervals_list(case["interval"])))
+        ivtol = max(1e-12, 1e-13 * (t1 - t0) / ln)
+
+    def iv_same(R, kind, flip=False):
+        for k in IVS:
+            want = np.asarray(base[k], dtype=float)
+            if flip and k == "iv:order_profile_integral":
+                want = want * np.array([-1.0, 1.0])
+            ctx.check(_close_list(R[k], want, ivtol), "%s:interval:%s" % (kind, k[3:]),
+                      lambda: "%s over the carried-along interval %r: %r, base (interval %r) %r"
+                      % (k[3:], R.get("_iv"), R[k], iv, base[k]))
 
     def tx_invariant(name, R, fx, kind):
         for p in PROFILES:
@@ -190,8 +231,11 @@ def run_case(case, ctx):
 
     # ---- shift
     s = case["shift"]
-    sh = _bundle(ctx, [[v + s for v in tr] for tr in trs], t0 + s, t1 + s, mrts, ri, mt, "shift")
+    sh = _bundle(ctx, [[v + s for v in tr] for tr in trs], t0 + s, t1 + s, mrts, ri, mt, "shift",
+                 _tx_interval(iv, lambda v: v + s))
     tx_invariant("shift", sh, lambda v: v + s, "shift")
+    sh["_iv"] = _tx_interval(iv, lambda v: v + s)
+    iv_same(sh, "shift")
     ctx.check(_close_list(sh["default_thresh"], base["default_thresh"]),
               "shift:default_thresh",
               lambda: "%r vs %r" % (sh["default_thresh"], base["default_thresh"]))
@@ -200,8 +244,11 @@ def run_case(case, ctx):
     c = 2.0 ** case["scale_exp"]
     m2 = mrts if (mrts is None or mrts == "auto") else mrts * c
     mt2 = None if mt is None else mt * c
-    sc = _bundle(ctx, [[v * c for v in tr] for tr in trs], t0 * c, t1 * c, m2, ri, mt2, "scale")
+    sc = _bundle(ctx, [[v * c for v in tr] for tr in trs], t0 * c, t1 * c, m2, ri, mt2, "scale",
+                 _tx_interval(iv, lambda v: v * c))
     tx_invariant("scale", sc, lambda v: v * c, "scale")
+    sc["_iv"] = _tx_interval(iv, lambda v: v * c)
+    iv_same(sc, "scale")
     ctx.check(_close_list(sc["default_thresh"], base["default_thresh"] * c),
               "scale:default_thresh",
               lambda: "%r vs %r * %r" % (sc["default_thresh"], base["default_thresh"], c))
@@ -209,7 +256,10 @@ def run_case(case, ctx):
     # ---- mirror about the midpoint
     def mir(v):
         return t0 + t1 - v
-    mi = _bundle(ctx, [sorted(mir(v) for v in tr) for tr in trs], t0, t1, mrts, ri, mt, "mirror")
+    mi = _bundle(ctx, [sorted(mir(v) for v in tr) for tr in trs], t0, t1, mrts, ri, mt, "mirror",
+                 _tx_interval(iv, mir, reverse=True))
+    mi["_iv"] = _tx_interval(iv, mir, reverse=True)
+    iv_same(mi, "mirror", flip=True)
     for p in PROFILES:
         if p not in base:
             continue
